@@ -27,9 +27,10 @@
 (***************************************************************************)
 EXTENDS Integers, Sequences, FiniteSets
 
-Kinds == {"file", "http", "command", "ptemplate", "ftemplate", "jcmd", "jvars", "jfile", "ytag"}
-CapOf(k) == IF k \in {"file", "http", "command", "jcmd", "jfile"} THEN "ext" ELSE "vars"
-ViaTemplateText(k) == k \in {"jcmd", "jvars", "jfile"}
+\* (jcmdf, jvarsf, jfilef: the same three with the template TEXT standing in a file the item names by path + template)
+Kinds == {"file", "http", "command", "ptemplate", "ftemplate", "jcmd", "jvars", "jfile", "jcmdf", "jvarsf", "jfilef", "ytag"}
+CapOf(k) == IF k \in {"file", "http", "command", "jcmd", "jfile", "jcmdf", "jfilef"} THEN "ext" ELSE "vars"
+ViaTemplateText(k) == k \in {"jcmd", "jvars", "jfile", "jcmdf", "jvarsf", "jfilef"}
 EnvValues == {"unset", "0", "1", "true", "TRUE", "yes"}
 EnvTruthy(v) == v \in {"1", "true", "TRUE"}
 PathClasses == {"inside", "outside", "symlink", "sibling"}     \* sibling: /base_evil next to /base
